@@ -319,6 +319,48 @@ pub fn header_checks(seed: u64, out: &mut Vec<DFinding>, probes: &mut dyn FnMut(
     use cfgrammar::header::{GrmtoolsSectionParser, Header, HeaderError, HeaderValue};
     use cfgrammar::Location;
     let mut r = Rng::new(seed ^ 0x4ead);
+    if r.chance(30) {
+        // two different keys, each given twice: every reported error must be about one key, i.e.
+        // all of its spans must cover the same text
+        let sep = |r: &mut Rng| r.pick(&[" ", "\n", "\n    ", "\n\n  "]).to_string();
+        let mut items = vec!["yacckind: Grmtools,", "recoverer: RecoveryKind::CPCTPlus,", "yacckind: Grmtools,", "recoverer: RecoveryKind::None,", "test_files: \"*.t\","];
+        for i in (1..items.len()).rev() {
+            let j = r.below(i as u64 + 1) as usize;
+            items.swap(i, j);
+        }
+        let mut src = String::from("%grmtools {");
+        for it in &items {
+            src.push_str(&sep(&mut r));
+            src.push_str(it);
+        }
+        src.push_str(&sep(&mut r));
+        src.push_str("}\n%start S\n%%\nS: 'a';\n");
+        let p = src.as_str();
+        *queries += 1;
+        match catch_unwind(AssertUnwindSafe(|| GrmtoolsSectionParser::new(p, true).parse())) {
+            Err(_) => out.push(DFinding { class: "header-error-panic", detail: format!("parsing the section of {:?} panicked", p) }),
+            Ok(Ok(_)) => out.push(DFinding { class: "header-error-location", detail: format!("a section with two keys given twice was accepted: {:?}", p) }),
+            Ok(Err(errs)) => {
+                probes("header_duplicate_errors_checked");
+                let mut seen: Vec<String> = vec![];
+                for e in &errs {
+                    let texts: Vec<&str> = e.locations.iter().map(|s| &p[s.start()..s.end()]).collect();
+                    if texts.windows(2).any(|w| w[0] != w[1]) {
+                        out.push(DFinding { class: "header-error-location", detail: format!("one error ({e}) points at different keys {:?}; section {:?}", texts, p) });
+                    }
+                    if let Some(t) = texts.first() {
+                        seen.push(t.to_string());
+                    }
+                }
+                for k in ["yacckind", "recoverer"] {
+                    if !seen.iter().any(|t| t == k) {
+                        out.push(DFinding { class: "header-error-location", detail: format!("the duplicated key {k:?} is not reported (reported: {:?}); section {:?}", seen, p) });
+                    }
+                }
+            }
+        }
+        return;
+    }
     let mut ws = |r: &mut Rng| match r.below(5) {
         0 => " ".to_string(),
         1 => "\n".to_string(),
@@ -478,4 +520,150 @@ pub fn action_error_checks(seed: u64, dir: &std::path::Path, out: &mut Vec<DFind
         return;
     }
     out.push(DFinding { class: "action-error-location", detail: format!("the character after the bad `$` is at line {} column {}, the error says {:?}; message {:?}; grammar {:?}", want.0, want.1, got, msg, p) });
+}
+
+// ---- errors of the grammar and lexer front ends, rendered -----------------------------------------
+
+/// Every `N| text` line of a rendered diagnostic must be line N of the source (CR of a CRLF end
+/// aside); returns the underlined pieces of text, or a description of the first mismatch.
+fn echoed_lines(p: &str, rendered: &str) -> Result<Vec<String>, String> {
+    let src: Vec<&str> = p.split('\n').map(|l| l.trim_end_matches('\r')).collect();
+    let lines: Vec<&str> = rendered.lines().collect();
+    let mut under = vec![];
+    let mut i = 0;
+    while i < lines.len() {
+        if let Some((num, rest)) = lines[i].split_once("| ") {
+            let indent = num.chars().take_while(|c| *c == ' ').count();
+            let digits = &num[indent..];
+            if !digits.is_empty() && digits.chars().all(|c| c.is_ascii_digit()) {
+                let n: usize = digits.parse().unwrap_or(0);
+                if n == 0 || src.get(n - 1).copied() != Some(rest.trim_end_matches('\r')) {
+                    return Err(format!("echoed line {n} is {:?}, line {n} of the source is {:?}", rest, src.get(n.wrapping_sub(1))));
+                }
+                if let Some(ul) = lines.get(i + 1) {
+                    let ul = ul.replacen("...", "   ", 1);
+                    let lead = ul.chars().take_while(|c| *c == ' ').count();
+                    let marks = ul.chars().skip(lead).take_while(|c| *c == '^' || *c == '-').count();
+                    if marks > 0 {
+                        let col = lead.saturating_sub(indent + digits.len() + 2);
+                        under.push(rest.chars().skip(col).take(marks).collect());
+                        i += 1;
+                    }
+                }
+            }
+        }
+        i += 1;
+    }
+    Ok(under)
+}
+
+/// Grammars and lexers that their front ends reject, laid out with drawn padding and (for the
+/// lexer) drawn line ends: rendering each error must not panic, must echo the right lines, and
+/// for duplicate declarations must underline the duplicated name each time.
+pub fn front_end_error_checks(seed: u64, out: &mut Vec<DFinding>, probes: &mut dyn FnMut(&'static str), queries: &mut u64) {
+    use cfgrammar::yacc::ast::ASTWithValidityInfo;
+    let mut r = Rng::new(seed ^ 0xfe11);
+    let pad = |r: &mut Rng| "\n".repeat(r.below(4) as usize);
+    let path = std::path::PathBuf::from("t");
+    if r.chance(50) {
+        // ---- grammar: (declarations, expected underlined text for every span, if it is a duplicate)
+        const BAD: &[(&str, Option<&str>)] = &[
+            ("%start S\n%start T\n", Some("")),
+            ("%start S\n%expect 1\n%expect 2\n", Some("")),
+            ("%start S\n%expect-rr 1\n%expect-rr 2\n", Some("")),
+            ("%start S\n%avoid_insert 'a'\n%avoid_insert 'a'\n", Some("a")),
+            ("%start S\n%epp a \"x\"\n%epp a \"y\"\n", Some("a")),
+            ("%start S\n%left 'a'\n%right 'a'\n", Some("a")),
+            ("%start S\n%implicit_tokens W W\n", Some("W")),
+            ("%start Nope\n", None),
+            ("%start S\n%token\n", None),
+            ("%start S\n%actiontype u8\n%actiontype u16\n", Some("")),
+        ];
+        let (decls, dup) = *r.pick(BAD);
+        let mut src = pad(&mut r);
+        for l in decls.lines() {
+            src.push_str(l);
+            src.push('\n');
+            src.push_str(&pad(&mut r));
+        }
+        src.push_str("%%\nS: 'a' T;\nT: 'b';\n");
+        let p = src.as_str();
+        *queries += 1;
+        let kind = if decls.contains("%implicit_tokens") { YaccKind::Eco } else { YaccKind::Original(YaccOriginalActionKind::GenericParseTree) };
+        let astv = ASTWithValidityInfo::new(kind, p);
+        let errs = match YaccGrammar::<u32>::new_from_ast_with_validity_info(&astv) {
+            Err(e) => e,
+            Ok(_) => return,
+        };
+        let fmt = SpannedDiagnosticFormatter::new(p, &path);
+        for e in errs {
+            probes("grammar_errors_rendered");
+            let what = e.to_string();
+            match catch_unwind(AssertUnwindSafe(|| fmt.format_error(e).to_string())) {
+                Err(_) => out.push(DFinding { class: "grammar-error-render-panic", detail: format!("rendering the error {what:?} of {:?} panicked", p) }),
+                Ok(rendered) => match echoed_lines(p, &rendered) {
+                    Err(m) => out.push(DFinding { class: "grammar-error-render", detail: format!("error {what:?}: {m}; rendered {:?}; grammar {:?}", rendered, p) }),
+                    Ok(under) => {
+                        if let Some(name) = dup {
+                            if !name.is_empty() && what.to_lowercase().contains("duplicat") && under.iter().any(|u| u.trim_matches(|c| c == '\'' || c == '"') != name) {
+                                out.push(DFinding { class: "grammar-error-render", detail: format!("error {what:?}: underlined {:?}, every occurrence of {name:?} was expected; rendered {:?}; grammar {:?}", under, rendered, p) });
+                            }
+                        }
+                    }
+                },
+            }
+        }
+    } else {
+        // ---- lexer: a rule name used twice, LF or CRLF line ends, with or without a %grmtools section
+        let nl = if r.chance(50) { "\r\n" } else { "\n" };
+        let mut src = String::new();
+        if r.chance(50) {
+            src.push_str("%grmtools{lexerkind: LRNonStreamingLexer}");
+            src.push_str(nl);
+        }
+        for _ in 0..r.below(3) {
+            src.push_str(nl);
+        }
+        src.push_str("%%");
+        src.push_str(nl);
+        let name = *r.pick(&["INT", "Größe", "K"]);
+        let n = 2 + r.below(4) as usize;
+        let (a, b) = (r.below(n as u64) as usize, r.below(n as u64) as usize);
+        for i in 0..n {
+            for _ in 0..r.below(3) {
+                src.push_str(nl);
+            }
+            let nm = if i == a || i == b { name.to_string() } else { format!("T{i}") };
+            src.push_str(&format!("r{i}x{} \"{nm}\"", " ".repeat(r.below(4) as usize)));
+            src.push_str(nl);
+        }
+        if a == b {
+            return;
+        }
+        let p = src.as_str();
+        *queries += 1;
+        let errs = match lrlex::LRNonStreamingLexerDef::<DefaultLexerTypes<u32>>::new_with_options(p, lrlex::DEFAULT_LEX_FLAGS) {
+            Err(e) => e,
+            Ok(_) => {
+                out.push(DFinding { class: "lexer-error-render", detail: format!("a lexer with the rule name {name:?} used twice was accepted: {:?}", p) });
+                return;
+            }
+        };
+        let fmt = SpannedDiagnosticFormatter::new(p, &path);
+        for e in errs {
+            probes(if nl == "\n" { "lexer_errors_rendered" } else { "lexer_errors_rendered_crlf" });
+            let what = e.to_string();
+            match catch_unwind(AssertUnwindSafe(|| fmt.format_error(e).to_string())) {
+                Err(_) => out.push(DFinding { class: "lexer-error-render-panic", detail: format!("rendering the error {what:?} of {:?} panicked", p) }),
+                Ok(rendered) => match echoed_lines(p, &rendered) {
+                    Err(m) => out.push(DFinding { class: "lexer-error-render", detail: format!("error {what:?}: {m}; rendered {:?}; lexer {:?}", rendered, p) }),
+                    Ok(under) => {
+                        if under.len() != 2 || under.iter().any(|u| u != name) {
+                            out.push(DFinding { class: "lexer-error-render", detail: format!("error {what:?}: underlined {:?}, the two occurrences of {name:?} were expected; rendered {:?}; lexer {:?}", under, rendered, p) });
+                        }
+                    }
+                },
+            }
+        }
+    }
 }
